@@ -180,6 +180,19 @@ type vfC10Attempt struct {
 	BodyRead   string
 	CtxErrIn   string // error state of the attempt's context when the attempt started
 	Outcome    vfC10Outcome
+	// Late: the backend stayed silent, the pool has a timeout, and the attempt's context had still not
+	// ended after vfC10LateAfter(timeout); the stub then answered 200 so that the call can return.
+	Late bool
+}
+
+// vfC10LateAfter is the bounded-liveness wait for the pool timeout to end a silent attempt:
+// 150 x the configured timeout, at least 3 s.
+func vfC10LateAfter(timeoutMs int) time.Duration {
+	d := 150 * time.Duration(timeoutMs) * time.Millisecond
+	if d < 3*time.Second {
+		d = 3 * time.Second
+	}
+	return d
 }
 
 type vfC10Call struct {
@@ -207,6 +220,18 @@ func (c *vfC10Call) doCancel() {
 
 var vfC10Current atomic.Pointer[vfC10Call]
 
+// vfC10Eventually polls cond for about 3 s of yielding sleeps (robust against a process-wide stall:
+// every sleep gives overdue timers and their goroutines a chance to run first).
+func vfC10Eventually(cond func() bool) bool {
+	for k := 0; k < 30; k++ {
+		if cond() {
+			return true
+		}
+		time.Sleep(100 * time.Millisecond)
+	}
+	return cond()
+}
+
 // vfC10Send replaces fnSendRequest.
 func vfC10Send(r *http.Request, client *http.Client) (*http.Response, error) {
 	c := vfC10Current.Load()
@@ -233,10 +258,22 @@ func vfC10Send(r *http.Request, client *http.Client) (*http.Response, error) {
 	if cn.Mode == "during" && cn.At == idx {
 		c.doCancel()
 	}
-	hung := false
+	hung, late := false, false
 	if o.Kind == "block" {
+		var lateC <-chan time.Time
+		if c.pool.TimeoutMs > 0 {
+			lt := time.NewTimer(vfC10LateAfter(c.pool.TimeoutMs))
+			defer lt.Stop()
+			lateC = lt.C
+		}
 		select {
 		case <-r.Context().Done():
+		case <-lateC:
+			// After a long stall of the whole process both timers are overdue and this select picks at
+			// random; the context's own timer cancels from a goroutine that still has to be scheduled.
+			// Only call the attempt "late" if its context is still alive after a further grace period
+			// of yielding sleeps.
+			late = !vfC10Eventually(func() bool { return r.Context().Err() != nil })
 		case <-c.giveup:
 			hung = true
 		}
@@ -257,7 +294,13 @@ func vfC10Send(r *http.Request, client *http.Client) (*http.Response, error) {
 		c.hung = true
 	}
 	c.attempts[idx].End = time.Since(c.t0)
+	c.attempts[idx].Late = late
 	c.mu.Unlock()
+	if late {
+		return &http.Response{StatusCode: 200, Proto: "HTTP/1.1", ProtoMajor: 1, ProtoMinor: 1,
+			Header:        http.Header{"X-Vf-Attempt": []string{strconv.Itoa(idx) + "-late"}},
+			ContentLength: 4, Body: io.NopCloser(strings.NewReader("late"))}, nil
+	}
 	switch o.Kind {
 	case "code":
 		b := fmt.Sprintf("attempt-%d", idx)
@@ -354,7 +397,7 @@ func (r vfC10Result) ledger(withTimes bool) string {
 	var sb strings.Builder
 	for _, a := range r.Attempts {
 		if withTimes {
-			fmt.Fprintf(&sb, "  attempt %d: start=%v end=%v outcome=%s bodySeen=%q ctxAtStart=%q\n", a.Idx, a.Start, a.End, a.Outcome, a.BodyRead, a.CtxErrIn)
+			fmt.Fprintf(&sb, "  attempt %d: start=%v end=%v outcome=%s bodySeen=%q ctxAtStart=%q late=%v\n", a.Idx, a.Start, a.End, a.Outcome, a.BodyRead, a.CtxErrIn, a.Late)
 		} else {
 			fmt.Fprintf(&sb, "%d:%s/%q;", a.Idx, a.Outcome, a.BodyRead)
 		}
@@ -427,6 +470,17 @@ func (e *vfC10Env) do(plan vfC10Req) vfC10Result {
 	case <-done:
 		timer.Stop()
 	case <-timer.C:
+		isDone := func() bool {
+			select {
+			case <-done:
+				return true
+			default:
+				return false
+			}
+		}
+		if vfC10Eventually(isDone) { // both were ready after a stall: not a hang
+			break
+		}
 		// release whatever is blocked so that the goroutine can be joined, then report
 		close(call.giveup)
 		call.doCancel()
@@ -509,6 +563,14 @@ func vfC10Judge(vf *vfCollector, ps vfC10PoolSpec, plan vfC10Req, res vfC10Resul
 
 	if res.Panicked {
 		return report("panic in Proxy.Handle: "+vfPanicClass(res.PanicText), "Handle panicked: %s", res.PanicText)
+	}
+	// --- time limit: a silent backend must not keep an attempt alive
+	for _, a := range res.Attempts {
+		if a.Late {
+			return report("pool timeout did not end an attempt against a silent backend",
+				"attempt %d: the backend stayed silent and the attempt's context had not ended %v after it started (pool timeout %dms)",
+				a.Idx, vfC10LateAfter(ps.TimeoutMs), ps.TimeoutMs)
+		}
 	}
 	// --- attempt count
 	if n == 0 {
